@@ -7,6 +7,7 @@
 import Qfx.Lemmas.CodecRound
 import Qfx.Lemmas.CodecDictGroup
 import Qfx.Lemmas.CodecDictNested
+import Qfx.Lemmas.CodecDictWalk
 import Qfx.Lemmas.CodecGroupNested
 open Qfx Qfx.Spec
 
@@ -302,6 +303,71 @@ theorem C13_dict_nested_group_mid (d : Dicts) (mt : Bytes) (G N : Tag) (C CN : L
       simp; omega
     rw [this]; rfl
 
+/-- WITH THE DICTIONARY, A GROUP WHOSE NESTED GROUPS ARE FLAT, MEMBER FIELDS IN ANY ARRANGEMENT (`Walk2`: any number of entries,
+    leaf members, nested counts, nested members, back to members of the enclosing group — the D6 pop —, the next nested count), whole parse,
+    fixed code: `8, 9, 35, plain…, G=<n>, <members>, z0, plain…, 10` parses into `Message.fields` = the wire fields, the body maps `G`
+    to exactly the count field and all member fields, and `z0` — member of neither `G` nor the nested group the walk ends in — is found in
+    the body with its wire value. -/
+theorem C13_dict_depth2_group_mid (d : Dicts) (mt : Bytes) (G : Tag) (C : List DNode) (hg : OuterGroup d mt G C)
+    (t8 t9 t35 g0 z0 t10 : TagValue) (preA M postB : List TagValue) (s' : GState) (hW : Walk2 d mt G C .outer M s')
+    (hw8 : IsWire t8) (hw9 : IsWire t9) (hw35 : IsWire t35) (hw10 : IsWire t10)
+    (h8 : t8.tag = 8) (h9 : t9.tag = 9) (h35 : t35.tag = 35) (h10 : t10.tag = 10) (hv : t35.value = mt)
+    (hpre : PlainFields d preA) (hg0 : IsWire g0) (hG : g0.tag = G)
+    (hGh : isHeaderField d G = false) (hGt : isTrailerField d G = false)
+    (hz : PlainFields d (z0 :: postB)) (hzmC : isGroupMember z0.tag C = false) (hzmS : isGroupMember z0.tag (s'.members C) = false)
+    (hzh : isHeaderField d z0.tag = false) (hzt : isTrailerField d z0.tag = false)
+    (hzG : ∀ tv ∈ z0 :: postB, tv.tag ≠ G)
+    (hng10 : NoGroupTag d 10) (hh10 : isHeaderField d 10 = false)
+    (hbl : atoi t9.value = .ok ((fieldsLength (t8 :: t9 :: t35 :: ((preA ++ g0 :: M) ++ (z0 :: postB ++ [t10]))) : Nat) : Int)) :
+    ∃ (m : Message) (f : Field),
+      parseMessage Fixes.cur d (wireOf (t8 :: t9 :: t35 :: ((preA ++ g0 :: M) ++ (z0 :: postB ++ [t10])))) = .ok m ∧
+      m.fields = t8 :: t9 :: t35 :: ((preA ++ g0 :: M) ++ (z0 :: postB ++ [t10])) ∧
+      alFind m.body.lookup G = some f ∧
+      f.items m.fields = g0 :: M ∧
+      ((∀ tv ∈ postB, tv.tag ≠ z0.tag) → m.body.getBytes m.fields z0.tag = .ok z0.value) := by
+  obtain ⟨m, hparse, hfields, hfind, hz0find⟩ := parse_dict_walk2_mid hg t8 t9 t35 g0 z0 t10 preA M postB s' hW
+    hw8 hw9 hw35 hw10 h8 h9 h35 h10 hv hpre hg0 hG hGh hGt hz hzmC hzmS hzh hzt hzG hng10 hh10 hbl
+  refine ⟨m, _, hparse, hfields, hfind, ?_, ?_⟩
+  · rw [hfields]
+    have hL : t8 :: t9 :: t35 :: ((preA ++ g0 :: M) ++ (z0 :: postB ++ [t10])) =
+        (t8 :: t9 :: t35 :: preA) ++ ((g0 :: M) ++ (z0 :: postB ++ [t10])) := by simp
+    have e : 3 + preA.length = (t8 :: t9 :: t35 :: preA).length := by simp; omega
+    have e2 : 1 + M.length = (g0 :: M).length := by simp; omega
+    simp only [Field.items]
+    rw [hL, e, List.drop_left, e2, List.take_left]
+  · intro hpz
+    apply getBytes_view _ _ _ _ z0 (hz0find hpz)
+    rw [hfields]
+    have hL' : t8 :: t9 :: t35 :: ((preA ++ g0 :: M) ++ (z0 :: postB ++ [t10])) =
+        (t8 :: t9 :: t35 :: (preA ++ g0 :: M)) ++ z0 :: (postB ++ [t10]) := by simp
+    rw [hL', List.getElem?_append_right (by simp; omega)]
+    have : 3 + preA.length + 1 + M.length - (t8 :: t9 :: t35 :: (preA ++ g0 :: M)).length = 0 := by
+      simp; omega
+    rw [this]; rfl
+
+/-- the same with the group LAST in the body: CheckSum closes it at whatever nesting level the member fields end -/
+theorem C13_dict_depth2_group_last (d : Dicts) (mt : Bytes) (G : Tag) (C : List DNode) (hg : OuterGroup d mt G C)
+    (t8 t9 t35 g0 t10 : TagValue) (preA M : List TagValue) (s' : GState) (hW : Walk2 d mt G C .outer M s')
+    (hw8 : IsWire t8) (hw9 : IsWire t9) (hw35 : IsWire t35) (hw10 : IsWire t10)
+    (h8 : t8.tag = 8) (h9 : t9.tag = 9) (h35 : t35.tag = 35) (h10 : t10.tag = 10) (hv : t35.value = mt)
+    (hpre : PlainFields d preA) (hg0 : IsWire g0) (hG : g0.tag = G)
+    (hGh : isHeaderField d G = false) (hGt : isTrailerField d G = false)
+    (h10m : isGroupMember 10 (s'.members C) = false) (hh10 : isHeaderField d 10 = false)
+    (hbl : atoi t9.value = .ok ((fieldsLength (t8 :: t9 :: t35 :: ((preA ++ g0 :: M) ++ [t10])) : Nat) : Int)) :
+    ∃ (m : Message) (f : Field),
+      parseMessage Fixes.cur d (wireOf (t8 :: t9 :: t35 :: ((preA ++ g0 :: M) ++ [t10]))) = .ok m ∧
+      m.fields = t8 :: t9 :: t35 :: ((preA ++ g0 :: M) ++ [t10]) ∧
+      alFind m.body.lookup G = some f ∧ f.items m.fields = g0 :: M := by
+  obtain ⟨m, hparse, hfields, hfind⟩ := parse_dict_walk2_last hg t8 t9 t35 g0 t10 preA M s' hW
+    hw8 hw9 hw35 hw10 h8 h9 h35 h10 hv hpre hg0 hG hGh hGt h10m hh10 hbl
+  refine ⟨m, _, hparse, hfields, hfind, ?_⟩
+  rw [hfields]
+  have hL : t8 :: t9 :: t35 :: ((preA ++ g0 :: M) ++ [t10]) = (t8 :: t9 :: t35 :: preA) ++ ((g0 :: M) ++ [t10]) := by simp
+  have e : 3 + preA.length = (t8 :: t9 :: t35 :: preA).length := by simp; omega
+  have e2 : 1 + M.length = (g0 :: M).length := by simp; omega
+  simp only [Field.items]
+  rw [hL, e, List.drop_left, e2, List.take_left]
+
 /-- as `C13_dict_flat_group_mid`, with the group LAST in the body (CheckSum closes it — the position in which the unchanged code also left `10=` inside
     `bodyBytes`, D7) -/
 theorem C13_dict_flat_group_last (d : Dicts) (mt : Bytes) (G d0 : Tag) (ts : List Tag) (C : List DNode)
@@ -504,6 +570,37 @@ def C13_roundtrip_dict_full : Prop :=
     (∃ gs, getGroup tmpl (f.full p.fields) = .ok gs ∧ gs.length = es.length) ∧
     ∀ t, t ≠ gt → (alFind a.b t).isSome → (alFind p.body.lookup t).isSome
 
+/-! non-vacuity of `Walk2`: NoPartyIDs(453) with nested NoPartySubIDs(802), two entries with one nested instance each -/
+def exCN : List DNode := [.mk 523 [], .mk 803 []]
+def exC : List DNode := [.mk 448 [], .mk 447 [], .mk 802 exCN]
+def exD : Dicts := { transport := none, app := some [([68], [.mk 11 [], .mk 453 exC, .mk 58 []])] }
+
+private theorem exNested : NestedGroup exD [68] 453 802 exC exCN :=
+  ⟨⟨[([68], [.mk 11 [], .mk 453 exC, .mk 58 []])], [.mk 11 [], .mk 453 exC, .mk 58 []], .mk 453 exC, .mk 802 exCN,
+     rfl, by simp [alFindB], by simp [dfind, DNode.tag], rfl, by simp [exC, dfind, DNode.tag], rfl⟩, rfl, rfl,
+   by intro n hn; simp [exCN] at hn; rcases hn with e | e <;> subst e <;> rfl⟩
+
+private theorem exWire (t : Tag) (v : Bytes) (hv : ∀ c ∈ v, c ≠ SOH) (ht : inInt64 t) : IsWire (TagValue.init t v) :=
+  canonTV_isWire _ (canon_init t v hv ht)
+
+example : Walk2 exD [68] 453 exC .outer
+    [TagValue.init 448 [97], TagValue.init 802 [49], TagValue.init 523 [120],
+     TagValue.init 448 [98], TagValue.init 802 [49], TagValue.init 523 [121]] (.inner 802 exCN) := by
+  have hng : NoGroupTag exD 448 := by
+    intro msgs h p hp
+    simp only [exD, Option.some.injEq] at h; subst h
+    simp only [List.mem_singleton] at hp; subst hp
+    simp [pathWalk, dfind, DNode.tag, exC]
+  refine .leaf (exWire _ _ (by simp [SOH]) (by simp [inInt64, TagValue.init])) (by simp [isGroupMember, exC, DNode.tag, TagValue.init]) (by simp [pathWalk, dfind, exC, DNode.tag, DNode.children, TagValue.init]) ?_
+  refine .start (CN := exCN) (exWire _ _ (by simp [SOH]) (by simp [inInt64, TagValue.init])) exNested ?_
+  refine .inner (exWire _ _ (by simp [SOH]) (by simp [inInt64, TagValue.init])) (by simp [isGroupMember, exCN, DNode.tag, TagValue.init]) ?_
+  refine .pop (exWire _ _ (by simp [SOH]) (by simp [inInt64, TagValue.init])) (by simp [isGroupMember, exCN, DNode.tag, TagValue.init])
+    (by simp [isGroupMember, exC, DNode.tag, TagValue.init]) (by simp [pathWalk, dfind, exC, DNode.tag, DNode.children, TagValue.init])
+    (by simp [isHeaderField, exD, Tag.isHeader, staticHeaderTags, TagValue.init]) (by simp [isTrailerField, exD, Tag.isTrailer, staticTrailerTags, TagValue.init]) hng ?_
+  refine .start (CN := exCN) (exWire _ _ (by simp [SOH]) (by simp [inInt64, TagValue.init])) exNested ?_
+  refine .inner (exWire _ _ (by simp [SOH]) (by simp [inInt64, TagValue.init])) (by simp [isGroupMember, exCN, DNode.tag, TagValue.init]) ?_
+  exact .nil _
+
 /-! non-vacuity: a two-entry group with a follower, read back by the model -/
 example :
     (getGroup [.elem 448, .elem 447]
@@ -523,7 +620,8 @@ example :
    "same fields and values in the same order"                 C13_roundtrip_flat (Write then Read, templates without nesting, any setter calls),
                                                              C13_read_inverts_wire_flat (whole Read, templates without nesting);
                                                              C13_read_member, C13_read_delimiter (one step each, any template); nested: C13_roundtrip_nodict_full
-   with the dictionary, group containing a nested group (D6 scenario), whole parse   C13_dict_nested_group_mid
-   "fields following the group are still found"              C13_read_stops_at_follower; with dictionary: C13_dict_nested_group_mid, C13_fixed_behind_nested_group
+   with the dictionary, group containing nested groups (D6 scenario), whole parse   C13_dict_depth2_group_mid, C13_dict_depth2_group_last (any arrangement of
+                                                             two levels), C13_dict_nested_group_mid
+   "fields following the group are still found"              C13_read_stops_at_follower; with dictionary: C13_dict_depth2_group_mid, C13_dict_nested_group_mid, C13_fixed_behind_nested_group
                                                              (vs. C13_orig_swallows_behind_nested_group, D6), C13_pop_returns_shorter_stack, C13_dict_flat_group_mid
    monitor clauses: group_roundtrip{dict=api|n|a|ta,nested=y|n}, followers_found{dict=…} -/
